@@ -7,7 +7,12 @@ instrumented key's serialisation, the comm hooks log async return, callback and 
 begin/end; the per-rank history is replayed label by label through YgmVerif.Cache.step (every `pack`
 must carry the key the model is about to send, every label must be enabled) and the model's emitted
 counts must add up to the real final counts.  Direct oracle: count/count_all/size/for_all/topk/
-all_gather and the count_all after every barrier equal the tally recomputed from the script."""
+all_gather and the count_all after every barrier equal the tally recomputed from the script.
+Two more dimensions: (a) for about a quarter of the cases the whole scenario (containers included) runs on a
+sub-communicator made by MPI_Comm_split and on the world communicator in the same process, in either order, through
+the same template instantiations — both runs are judged; (b) cases with TWO counting_sets of the same type alive at
+once on one communicator (disjoint key sets, same cache slots, own count cache and own pre-barrier callback each),
+operations interleaved, each judged against its own model and tally."""
 import os
 import shutil
 import tempfile
@@ -34,8 +39,11 @@ POLICIES = ["uniform", "racer", "starve", "late", "burst"]
 ROUTINGS = ["NONE", "NR", "NLNR"]
 RULE = ("seeded scripts: per rank and phase a list of main-context inserts and handler sends (handler inserts, optionally forwards a second "
         "handler), keys = base + j*2^20 (colliding in one cache slot; 70% of the keys share one slot), barrier after every phase; a case = "
-        "(script, layout, routing, buffer KB, policy, sim seed); non-trivial = at least one insert was issued while the same rank was "
-        "inside the send of a flush")
+        "(script, layout, routing, buffer KB, policy, sim seed, subcomm, split, twin); subcomm 1/2 (about a quarter of the cases): the same "
+        "scenario also runs, before/after the world run and in the same process, on a sub-communicator from MPI_Comm_split (split 0: "
+        "parity of the on-node index, 1: parity of the node / halves) where script ranks and destinations >= its size issue nothing; twin: "
+        "two containers of the same type alive at once, key k belongs to container (k >> 20) >= J, each with its own tally and model "
+        "replay; non-trivial = at least one insert was issued while the same rank was inside the send of a flush")
 
 
 class Rng:
@@ -56,16 +64,18 @@ class Rng:
         return self.next() % n if n else 0
 
 
-def gen_script(seed, nranks, nphases, nops, bases, J, hpct=45, fwdpct=40, vmax=1, hot=70, vmap=None):
-    """returns (lines, universe, contributions) ; contributions = [(phase, key, value)] of every insert any rank
-    or handler will perform (the tally the oracle uses)"""
+def gen_script(seed, nranks, nphases, nops, bases, J, hpct=45, fwdpct=40, vmax=1, hot=70, vmap=None, twin=False):
+    """returns (lines, universe, ops); ops = [(phase, rank, kind, d, k, v, d2, k2, v2)] — what the script asks for; what is
+    actually contributed on a communicator of a given size is `contributions(ops, size)`.  twin: keys of two containers,
+    container of key k = (k >> 20) >= J"""
     g = Rng(seed)
-    universe = [b + j * S for b in bases for j in range(J)]
-    lines, contrib = [], []
+    JJ = 2 * J if twin else J
+    universe = [b + j * S for b in bases for j in range(JJ)]
+    lines, ops = [], []
 
     def key():
         b = bases[0] if g.below(100) < hot or len(bases) == 1 else bases[1 + g.below(len(bases) - 1)]
-        return b + g.below(J) * S
+        return b + g.below(JJ) * S
 
     def val():
         v = 1 + g.below(vmax) if vmax > 1 else 1
@@ -79,15 +89,38 @@ def gen_script(seed, nranks, nphases, nops, bases, J, hpct=45, fwdpct=40, vmax=1
                     d = g.below(nranks)
                     if g.below(100) < fwdpct:
                         d2, k2, v2 = g.below(nranks), key(), val()
-                        contrib.append((ph, k2, v2))
                     else:
                         d2, k2, v2 = -1, 0, 0
                     lines.append(f"{r} h {d} {k} {v} {d2} {k2} {v2}")
+                    ops.append((ph, r, "h", d, k, v, d2, k2, v2))
                 else:
                     lines.append(f"{r} i {k} {v}")
-                contrib.append((ph, k, v))
+                    ops.append((ph, r, "i", -1, k, v, -1, 0, 0))
             lines.append(f"{r} b")
-    return lines, universe, contrib
+    if twin:
+        lines.insert(0, f"T {J}")
+    return lines, universe, ops
+
+
+def contributions(ops, size):
+    """[(phase, key, value)] of every insert performed when the script runs on a communicator of `size` ranks:
+    script ranks >= size and handler sends to ranks >= size issue nothing, a forward to a rank >= size is dropped"""
+    out = []
+    for (ph, r, kind, d, k, v, d2, k2, v2) in ops:
+        if r >= size:
+            continue
+        if kind == "i":
+            out.append((ph, k, v))
+        elif d < size:
+            out.append((ph, k, v))
+            if 0 <= d2 < size:
+                out.append((ph, k2, v2))
+    return out
+
+
+def container_of(case):
+    J = case["J"]
+    return (lambda k: 1 if (k >> 20) >= J else 0) if case.get("twin") else (lambda k: 0)
 
 
 def rank_events(run, nranks):
@@ -101,63 +134,133 @@ def rank_events(run, nranks):
     return ev
 
 
-def tokens(events, me=None, owner=None):
-    """event history of one rank -> labels of the model (see lean/Driver/Cache.lean).
-    owner = None: counting_set (the owner-side visit is not a cache label);
-    owner = dict key -> rank: reducing adapter (a received value is a cache insert on a non-owner, a bypass on
-    the owner when it sends on, else the container operation itself).
-    returns (tokens, stats)"""
-    toks, ctx = [], []
+def split_phases(lines):
+    """lines of one rank (events or out file) -> {name: (commrank, commsize, lines of that scenario run)}"""
+    res, cur = {}, None
+    for l in lines:
+        if l.startswith("ph "):
+            w = l.split()
+            cur = w[1]
+            res[cur] = (int(w[2]), int(w[3]), [])
+        elif cur is not None:
+            res[cur][2].append(l)
+    return res
+
+
+def views(case, sr):
+    """the communicator runs of one process run: [{name, members (world ranks in communicator order), ppn, events{cr},
+    outs{cr}, bad}] — the world run and, when the case has subcomm, one run per colour of the split"""
+    nodes, ppn = case["nodes"], case["ppn"]
+    n = nodes * ppn
+    ev = rank_events(sr, n)
+    pe = {r: split_phases(ev[r]) for r in range(n)}
+    po = {r: split_phases(sr.outs.get(r, [])) for r in range(n)}
+    groups = [("world", list(range(n)))]
+    if case.get("subcomm"):
+        def colour(r):
+            if case.get("split", 0) == 0:
+                return (r % ppn) % 2
+            return (r // ppn) % 2 if nodes > 1 else (0 if r < n // 2 else 1)
+        for c in (0, 1):
+            m = [r for r in range(n) if colour(r) == c]
+            if m:
+                groups.append(("sub", m))
+    if case.get("subcomm") == 1:
+        groups = groups[1:] + groups[:1]
+    res = []
+    for name, members in groups:
+        v = {"name": name, "members": members, "ppn": sum(1 for r in members if r // ppn == members[0] // ppn),
+             "events": {}, "outs": {}, "bad": None}
+        for cr, r in enumerate(members):
+            e, o = pe[r].get(name), po[r].get(name)
+            if e is None or o is None:
+                v["bad"] = f"world rank {r} did not run the scenario on '{name}'"
+                continue
+            if (e[0], e[1]) != (cr, len(members)):
+                v["bad"] = f"world rank {r} is rank {e[0]} of {e[1]} on '{name}', expected {cr} of {len(members)}"
+            v["events"][cr], v["outs"][cr] = e[2], o[2]
+        res.append(v)
+    return res
+
+
+def tokens(events, me=None, owner=None, cid=None, ncont=1):
+    """event history of one rank on one communicator -> labels of the model (see lean/Driver/Cache.lean), one label list
+    per container.  owner = None: counting_set (the owner-side visit is not a cache label); owner = dict key -> rank:
+    reducing adapter (a received value is a cache insert on a non-owner, a bypass on the owner when it sends on, else
+    the container operation itself).  cid(key) -> container.  A `pack`/`return` belongs to the container whose call is
+    innermost; a pre-barrier callback belongs to the container that registered it (FIFO of the `RC` events).
+    returns ([tokens per container], stats)"""
+    cid = cid or (lambda k: 0)
+    toks = [[] for _ in range(ncont)]
+    ctx = []         # (kind, container)
+    regq = []        # containers whose callback is registered, in order
     st = {"inserts": 0, "nested_inserts": 0, "nested_same_slot": 0, "delivered": 0, "applied": 0, "packs": 0, "max_depth": 0,
-          "unbalanced": 0, "applied_kv": [], "delivered_kv": [], "packed_kv": []}
-    active = []      # slots of the inserts / flushes that are inside a send (for the statistics)
+          "unbalanced": 0, "returns": 0, "cross_container_nesting": 0,
+          "applied_kv": [[] for _ in range(ncont)], "delivered_kv": [[] for _ in range(ncont)], "packed_kv": [[] for _ in range(ncont)]}
+    active = []      # (container, slot) of the inserts / flushes that are inside a send (for the statistics)
     n = len(events)
+
+    def inner():
+        for kind, c in reversed(ctx):
+            if kind != "sb" and kind != "X":
+                return c
+        return None
+
     for i, e in enumerate(events):
         w = e.split()
         t = w[0]
-        top = ctx[-1] if ctx else None
+        top = ctx[-1][0] if ctx else None
         if t == "ib":
-            toks += ["I", w[1], w[2]]
+            c = cid(int(w[1]))
+            toks[c] += ["I", w[1], w[2]]
             st["inserts"] += 1
-            if any(c in ("ib", "FB", "Xi") for c in ctx):
+            if any(k in ("ib", "FB", "Xi") for k, _ in ctx):
                 st["nested_inserts"] += 1
-                if any(a == int(w[1]) % S for a in active):
+                if any(a == (c, int(w[1]) % S) for a in active):
                     st["nested_same_slot"] += 1
-            ctx.append("ib")
-            active.append(int(w[1]) % S)
-            st["max_depth"] = max(st["max_depth"], sum(1 for c in ctx if c in ("ib", "Xi")))
+                if any(k in ("ib", "FB", "Xi") and cc != c for k, cc in ctx):
+                    st["cross_container_nesting"] += 1
+            ctx.append(("ib", c))
+            active.append((c, int(w[1]) % S))
+            st["max_depth"] = max(st["max_depth"], sum(1 for k, _ in ctx if k in ("ib", "Xi")))
         elif t == "ie":
             if top != "ib":
                 st["unbalanced"] += 1
             else:
+                toks[ctx[-1][1]].append("D")
                 ctx.pop()
                 active.pop()
-            toks.append("D")
         elif t == "sb":
-            ctx.append("sb")
+            ctx.append(("sb", None))
         elif t == "se":
             if top == "sb":
                 ctx.pop()
             else:
                 st["unbalanced"] += 1
-        elif t == "S":
-            pass
+        elif t == "RC":
+            c = inner()
+            regq.append(0 if c is None else c)
         elif t == "R":
-            st["returns"] = st.get("returns", 0) + 1
+            st["returns"] += 1
             if top != "sb":
-                toks.append("R")
+                c = inner()
+                if c is not None:
+                    toks[c].append("R")
         elif t == "pk":
             if top != "sb":
-                toks += ["P", w[1], w[2]]
+                c = inner()
+                c = cid(int(w[1])) if c is None else c
+                toks[c] += ["P", w[1], w[2]]
                 st["packs"] += 1
-                st["packed_kv"].append((int(w[1]), int(w[2])))
+                st["packed_kv"][c].append((int(w[1]), int(w[2])))
         elif t == "FB":
-            toks.append("FB")
-            ctx.append("FB")
-            active.append(-1)
+            c = regq.pop(0) if regq else 0
+            toks[c].append("FB")
+            ctx.append(("FB", c))
+            active.append((c, -1))
         elif t == "FE":
-            toks.append("FE")
             if top == "FB":
+                toks[ctx[-1][1]].append("FE")
                 ctx.pop()
                 active.pop()
             else:
@@ -166,28 +269,29 @@ def tokens(events, me=None, owner=None):
             nxt = events[i + 1].split() if i + 1 < n else ["?"]
             if nxt[0] == "uk":
                 k, v = int(nxt[1]), int(nxt[2])
+                c = cid(k)
                 if owner is None:
                     st["applied"] += 1
-                    st["applied_kv"].append((k, v))
-                    ctx.append("X")
+                    st["applied_kv"][c].append((k, v))
+                    ctx.append(("X", None))
                 else:
                     nn = events[i + 2].split()[0] if i + 2 < n else "?"
                     if owner.get(k) == me and nn == "X-":
-                        toks += ["A", str(k), str(v)]
+                        toks[c] += ["A", str(k), str(v)]
                         st["applied"] += 1
-                        st["applied_kv"].append((k, v))
-                        ctx.append("X")
+                        st["applied_kv"][c].append((k, v))
+                        ctx.append(("X", None))
                     else:
-                        toks += ["I", str(k), str(v)]
+                        toks[c] += ["I", str(k), str(v)]
                         st["delivered"] += 1
-                        st["delivered_kv"].append((k, v))
-                        ctx.append("Xi")
-                        active.append(k % S)
+                        st["delivered_kv"][c].append((k, v))
+                        ctx.append(("Xi", c))
+                        active.append((c, k % S))
             else:
-                ctx.append("X")
+                ctx.append(("X", None))
         elif t == "X-":
             if top == "Xi":
-                toks.append("D")
+                toks[ctx[-1][1]].append("D")
                 ctx.pop()
                 active.pop()
             elif top == "X":
@@ -195,8 +299,9 @@ def tokens(events, me=None, owner=None):
             else:
                 st["unbalanced"] += 1
         elif t == "be":
-            toks.append("B")     # barrier() returned: the model requires "idle and no callback registered"
-        # uk (consumed by the X+ lookahead), hb he bb: no label
+            for c in range(ncont):
+                toks[c].append("B")     # barrier() returned: the model requires "idle and no callback registered"
+        # uk (consumed by the X+ lookahead), hb he bb S: no label
     return toks, st
 
 
@@ -232,6 +337,16 @@ class Scratch:
         return p
 
 
+def add_dimensions(cases, g):
+    """sub-communicator runs for about a quarter of the cases (both orders, both splits), two containers at once for
+    about a fifth — a deterministic function of the case list, recorded in the case"""
+    for i, c in enumerate(cases):
+        c["subcomm"] = [0, 0, 1, 0, 0, 0, 2, 0][i % 8]
+        c["split"] = (i // 8) % 2 if c["subcomm"] else 0
+        c["twin"] = 1 if i % 5 == 1 else 0
+    return cases
+
+
 def make_cases(tier, seed):
     g = Rng(seed * 7919 + 15)
     cases = []
@@ -251,18 +366,20 @@ def make_cases(tier, seed):
                       "bases": bases, "J": J, "hot": hot, "hpct": [45, 60, 30][g.below(3)], "fwdpct": 40,
                       "routing": ROUTINGS[g.below(3)], "buffer_kb": [0, 0, 1][g.below(3)], "policy": POLICIES[i % len(POLICIES)],
                       "sim_seed": 1 + g.below(1 << 20)})
-    return cases
+    return add_dimensions(cases, g)
 
 
 def run_case(binary, scratch, case, idx, mode="cset", extra_args=(), vmap=None):
     n = case["nodes"] * case["ppn"]
-    lines, universe, contrib = gen_script(case["script_seed"], n, case["phases"], case["nops"], case["bases"], case["J"],
-                                          hpct=case["hpct"], fwdpct=case["fwdpct"], vmax=case.get("vmax", 1), hot=case["hot"], vmap=vmap)
+    lines, universe, ops = gen_script(case["script_seed"], n, case["phases"], case["nops"], case["bases"], case["J"],
+                                      hpct=case["hpct"], fwdpct=case["fwdpct"], vmax=case.get("vmax", 1), hot=case["hot"], vmap=vmap,
+                                      twin=bool(case.get("twin")))
     path = scratch.script(f"s{idx}.txt", lines, universe, case.get("len"))
-    sr = C.run_sim(binary, [mode, path] + list(extra_args), nodes=case["nodes"], ppn=case["ppn"],
+    args = [mode, path] + (list(extra_args) or [0]) + [case.get("subcomm", 0), case.get("split", 0)]
+    sr = C.run_sim(binary, args, nodes=case["nodes"], ppn=case["ppn"],
                    env={"YGM_COMM_BUFFER_SIZE_KB": case["buffer_kb"], "YGM_COMM_ROUTING": case["routing"]},
                    sim_seed=case["sim_seed"], policy=case["policy"], timeout=30, max_steps=400000, livelock=200000)
-    return sr, universe, contrib
+    return sr, universe, ops
 
 
 def outs_by_tag(lines):
@@ -274,39 +391,55 @@ def outs_by_tag(lines):
     return d
 
 
+def sections(lines):
+    """out lines of one scenario run -> (lines before the first `cont`, {container: lines})"""
+    pre, per, cur = [], {}, None
+    for l in lines:
+        if l.startswith("cont "):
+            cur = int(l.split()[1])
+            per[cur] = []
+        elif cur is None:
+            pre.append(l)
+        else:
+            per[cur].append(l)
+    return pre, per
+
+
 def pairs(ws):
     return {int(t.split(":")[0]): int(t.split(":")[1]) for t in ws}
 
 
-def check_cset(res, case, sr, universe, contrib, model_ok):
-    n = case["nodes"] * case["ppn"]
-    fails = []           # (what, detail)
-    if sr.verdict != "ok":
-        res.oracle_failures.append({"what": f"run failed: {sr.verdict} {sr.stderr[-200:]}", "signature": "counting_set-run-" + sr.verdict.split(":")[0],
-                                    "case": case})
-        return
+def where(view, c, ncont):
+    return (f"[{view['name']} communicator, {len(view['members'])} ranks" + (f", container {'AB'[c]} of two" if ncont > 1 else "") + "] ")
+
+
+def judge_cset(res, case, view, c, ncont, universe, ops, model_ok, acc):
+    """one counting_set on one communicator: oracle + model replay; returns the failures [(what, detail)]"""
+    g = len(view["members"])
+    cid = container_of(case)
+    contrib = [x for x in contributions(ops, g) if cid(x[1]) == c]
+    uni = [k for k in universe if cid(k) == c]
+    fails = []
     tally = {}
     for (_, k, _) in contrib:
         tally[k] = tally.get(k, 0) + 1
-    cum = []
-    for ph in range(case["phases"]):
-        cum.append(sum(1 for (p, _, _) in contrib if p <= ph))
-    outs = {r: outs_by_tag(sr.outs.get(r, [])) for r in range(n)}
-    # ---- direct oracle
+    cum = [sum(1 for (p, _, _) in contrib if p <= ph) for ph in range(case["phases"])]
+    secs = {r: sections(view["outs"].get(r, [])) for r in range(g)}
     real_count = {}
-    for r in range(n):
-        o = outs[r]
+    for r in range(g):
+        pre, per = secs[r]
+        o = outs_by_tag(per.get(c, []))
         cnt = {int(w[0]): int(w[1]) for w in o.get("count", [])}
         if r == 0:
             real_count = cnt
-        bad = {k: (cnt.get(k), tally.get(k, 0)) for k in universe if cnt.get(k) != tally.get(k, 0)}
+        bad = {k: (cnt.get(k), tally.get(k, 0)) for k in uni if cnt.get(k) != tally.get(k, 0)}
         if bad:
             fails.append(("count(k) != number of inserts of k", {"rank": r, "key: (real, expected)": bad}))
         if int(o.get("countall", [["-1"]])[0][0]) != len(contrib):
             fails.append(("count_all != number of inserts", {"rank": r, "real": o.get("countall"), "expected": len(contrib)}))
         if int(o.get("size", [["-1"]])[0][0]) != len(tally):
             fails.append(("size != number of distinct keys", {"rank": r, "real": o.get("size"), "expected": len(tally)}))
-        snaps = [int(w[1]) for w in o.get("snap", [])]
+        snaps = [int(w[1 + c]) for w in outs_by_tag(pre).get("snap", [])]
         if snaps != cum:
             fails.append(("count_all after a barrier != inserts issued before it (something stayed cached or was lost)",
                           {"rank": r, "real": snaps, "expected": cum}))
@@ -314,47 +447,31 @@ def check_cset(res, case, sr, universe, contrib, model_ok):
         exp_top = sorted(tally.items(), key=lambda kv: (-kv[1], kv[0]))[:3]
         if top != exp_top:
             fails.append(("topk differs from the tally", {"rank": r, "real": top, "expected": exp_top}))
-        want = {universe[i]: tally.get(universe[i], 0) for i in range(len(universe)) if (i + r) % 2 == 0 and universe[i] in tally}
+        want = {uni[i]: tally.get(uni[i], 0) for i in range(len(uni)) if (i + r) % 2 == 0 and uni[i] in tally}
         got = pairs(o.get("gather", [[]])[0])
         if got != want:
             fails.append(("all_gather differs from the tally", {"rank": r, "real": got, "expected": want}))
     fa = {}
-    for r in range(n):
-        for k, c in pairs(outs[r].get("forall", [[]])[0]).items():
+    for r in range(g):
+        for k, cnt in pairs(outs_by_tag(secs[r][1].get(c, [])).get("forall", [[]])[0]).items():
             if k in fa:
                 fails.append(("for_all presents a key on two ranks", {"key": k}))
-            fa[k] = c
+            fa[k] = cnt
     if fa != tally:
         fails.append(("for_all entries differ from the tally", {"real": fa, "expected": tally}))
 
-    # ---- correspondence: replay every rank's history through the model
-    ev = rank_events(sr, n)
-    per_rank = [tokens(ev[r]) for r in range(n)]
-    stats = {k: sum(st[k] for _, st in per_rank) for k in ("inserts", "nested_inserts", "nested_same_slot", "packs", "applied", "unbalanced")}
-    depth = max(st["max_depth"] for _, st in per_rank)
-    res.evaluations += 1
-    res.count("runs")
-    res.count("inserts", stats["inserts"])
-    res.count("inserts-issued-inside-a-send", stats["nested_inserts"])
-    res.count("inserts-into-a-slot-being-flushed", stats["nested_same_slot"])
-    res.count("flush-messages", stats["packs"])
-    res.count(f"layout-{case['nodes']}x{case['ppn']}")
-    res.count(f"buffer-{case['buffer_kb']}KB")
-    res.count(f"routing-{case['routing']}")
-    res.count(f"policy-{case['policy']}")
-    res.count(f"max-insert-depth-{depth}")
-    if stats["nested_inserts"] > 0:
-        res.distinct.add((case["script_seed"], case["nodes"], case["ppn"], case["routing"], case["buffer_kb"], case["policy"], case["sim_seed"]))
-    mismatch = None
-    pinned_explains = None
-    if stats["inserts"] != len(contrib) or stats["unbalanced"]:
-        fails.append(("harness log is not the script (inserts logged != inserts scripted)", {"logged": stats["inserts"], "scripted": len(contrib)}))
-    if stats["packs"] and not any(st.get("returns") for _, st in per_rank):
-        mismatch = {"relation": "comm hooks present (YGM_VERIF_HOOKS: as-, cb+, cb-, ex+, ex-)", "what": "no async-return event in the log: the tree has no hooks, histories cannot be replayed"}
+    # ---- correspondence: replay every rank's history of this container through the model
+    per_rank = acc["per_rank"]
+    mismatch, pinned_explains = None, None
+    logged = sum(1 for r in range(g) for t in per_rank[r][0][c] if t == "I")
+    if logged != len(contrib):
+        fails.append(("harness log is not the script (inserts logged != inserts scripted)", {"logged": logged, "scripted": len(contrib)}))
+    if acc["packs"] and not acc["returns"]:
+        mismatch = {"relation": "comm hooks present (YGM_VERIF_HOOKS: as-, cb+, cb-, ex+, ex-, rcb)", "what": "no async-return event in the log: the tree has no hooks, histories cannot be replayed"}
     elif model_ok:
-        ans = C.model("cache", [f"fixed {S} | " + " ".join(t) for t, _ in per_rank])
+        ans = C.model("cache", [f"fixed {S} | " + " ".join(per_rank[r][0][c]) for r in range(g)])
         parsed = [parse_model(a) for a in ans]
-        res.traces_validated += n
+        res.traces_validated += g
         msum = {}
         for r, p in enumerate(parsed):
             if not p["ok"]:
@@ -363,42 +480,88 @@ def check_cset(res, case, sr, universe, contrib, model_ok):
             if p["stack"] != "0" or p["cache"] != "" or p["reg"] != "0":
                 mismatch = mismatch or {"relation": "after the last barrier the model's cache is empty and no callback is registered",
                                         "what": f"rank {r}: reg={p['reg']} stack={p['stack']} cache={p['cache']}"}
-            for (_, k, c) in p["out"]:
-                msum[k] = msum.get(k, 0) + c
+            for (_, k, cnt) in p["out"]:
+                msum[k] = msum.get(k, 0) + cnt
         if mismatch is None and msum != {k: v for k, v in real_count.items() if v}:
             mismatch = {"relation": "sum of the counts the model emits = count(k) of the real run", "what": f"model {msum} real {real_count}"}
         # every packed key executes exactly once on the owner (C01, observed)
-        packed = sorted(k for _, st in per_rank for (k, _) in st["packed_kv"])
-        applied = sorted(k for _, st in per_rank for (k, _) in st["applied_kv"])
+        packed = sorted(k for r in range(g) for (k, _) in per_rank[r][1]["packed_kv"][c])
+        applied = sorted(k for r in range(g) for (k, _) in per_rank[r][1]["applied_kv"][c])
         if packed != applied:
             mismatch = mismatch or {"relation": "every flushed (key, count) message is executed once by the owner", "what": f"{len(packed)} packed, {len(applied)} executed"}
         if mismatch or fails:
             # does the pinned statement order explain this run exactly?
-            pans = [parse_model(a) for a in C.model("cache", [f"pinned {S} | " + " ".join(t) for t, _ in per_rank])]
+            pans = [parse_model(a) for a in C.model("cache", [f"pinned {S} | " + " ".join(per_rank[r][0][c]) for r in range(g)])]
             if all(p["ok"] for p in pans):
                 psum = {}
                 for p in pans:
-                    for (_, k, c) in p["out"]:
-                        psum[k] = psum.get(k, 0) + c
-                # entries the pinned order leaves cached are simply missing from the counts
+                    for (_, k, cnt) in p["out"]:
+                        psum[k] = psum.get(k, 0) + cnt
                 pinned_explains = psum == {k: v for k, v in real_count.items() if v}
             else:
                 pinned_explains = False
-    if fails:
-        reentrant = stats["nested_same_slot"] > 0
-        sig = "counting_set-reentrant-flush" if (pinned_explains or (pinned_explains is None and reentrant)) else "counting_set-count-mismatch"
-        what, detail = fails[0]
-        res.oracle_failures.append({"what": what + (" [the pinned statement order (PinnedCache) replays this run to exactly these counts]" if pinned_explains else ""),
-                                    "signature": sig,
-                                    "case": dict(case, mode="cset", detail=detail, all_failed_clauses=[w for w, _ in fails][:8],
-                                                 inserts_into_a_slot_being_flushed=stats["nested_same_slot"],
-                                                 model=mismatch, pinned_model_explains_run=pinned_explains)})
-    elif mismatch:
-        res.corr_failures.append(dict(mismatch, case=dict(case, mode="cset")))
-    if len(res.samples) < 3 and stats["nested_same_slot"] > 0:
-        res.sample({"case": {k: case[k] for k in ("nodes", "ppn", "routing", "buffer_kb", "policy", "sim_seed", "script_seed")},
-                    "inserts": stats["inserts"], "inserts_into_a_slot_being_flushed": stats["nested_same_slot"],
-                    "real_counts": real_count, "rank0_first_labels": " ".join(per_rank[0][0][:40])})
+    return fails, mismatch, pinned_explains, real_count
+
+
+def check_cset(res, case, sr, universe, ops, model_ok):
+    if sr.verdict != "ok":
+        res.oracle_failures.append({"what": f"run failed: {sr.verdict} {sr.stderr[-200:]}", "signature": "counting_set-run-" + sr.verdict.split(":")[0],
+                                    "case": dict(case, mode="cset")})
+        return
+    ncont = 2 if case.get("twin") else 1
+    cid = container_of(case)
+    res.evaluations += 1
+    res.count("runs")
+    res.count(f"layout-{case['nodes']}x{case['ppn']}")
+    res.count(f"buffer-{case['buffer_kb']}KB")
+    res.count(f"routing-{case['routing']}")
+    res.count(f"policy-{case['policy']}")
+    res.count(f"subcomm-{['none', 'sub-then-world', 'world-then-sub'][case.get('subcomm', 0)]}")
+    if ncont > 1:
+        res.count("two-containers-at-once")
+    nested_total = 0
+    for view in views(case, sr):
+        g = len(view["members"])
+        res.count(f"communicator-runs-{view['name']}")
+        if view["bad"]:
+            res.oracle_failures.append({"what": "scenario did not run on the expected communicator: " + view["bad"], "signature": "counting_set-subcomm-layout",
+                                        "case": dict(case, mode="cset")})
+            continue
+        per_rank = [tokens(view["events"][r], cid=cid, ncont=ncont) for r in range(g)]
+        stats = {k: sum(st[k] for _, st in per_rank) for k in ("inserts", "nested_inserts", "nested_same_slot", "packs", "applied", "unbalanced", "returns", "cross_container_nesting")}
+        depth = max(st["max_depth"] for _, st in per_rank)
+        nested_total += stats["nested_inserts"]
+        res.count("inserts", stats["inserts"])
+        res.count("inserts-issued-inside-a-send", stats["nested_inserts"])
+        res.count("inserts-into-a-slot-being-flushed", stats["nested_same_slot"])
+        res.count("inserts-issued-inside-a-send-of-the-other-container", stats["cross_container_nesting"])
+        res.count("flush-messages", stats["packs"])
+        res.count(f"max-insert-depth-{depth}")
+        acc = {"per_rank": per_rank, "packs": stats["packs"], "returns": stats["returns"]}
+        for c in range(ncont):
+            fails, mismatch, pinned_explains, real_count = judge_cset(res, case, view, c, ncont, universe, ops, model_ok, acc)
+            if stats["unbalanced"]:
+                fails.append(("harness log is unbalanced", {"events": stats["unbalanced"]}))
+            if fails:
+                reentrant = stats["nested_same_slot"] > 0
+                sig = "counting_set-reentrant-flush" if (pinned_explains or (pinned_explains is None and reentrant)) else "counting_set-count-mismatch"
+                what, detail = fails[0]
+                res.oracle_failures.append({"what": where(view, c, ncont) + what + (" [the pinned statement order (PinnedCache) replays this run to exactly these counts]" if pinned_explains else ""),
+                                            "signature": sig,
+                                            "case": dict(case, mode="cset", failed_on=view["name"], container=c, detail=detail,
+                                                         all_failed_clauses=[w for w, _ in fails][:8],
+                                                         inserts_into_a_slot_being_flushed=stats["nested_same_slot"],
+                                                         model=mismatch, pinned_model_explains_run=pinned_explains)})
+            elif mismatch:
+                res.corr_failures.append(dict(mismatch, what=where(view, c, ncont) + mismatch["what"], case=dict(case, mode="cset")))
+            if len(res.samples) < 3 and stats["nested_same_slot"] > 0 and (ncont > 1 or case.get("subcomm") or len(res.samples) < 1):
+                res.sample({"case": {k: case[k] for k in ("nodes", "ppn", "routing", "buffer_kb", "policy", "sim_seed", "script_seed", "subcomm", "split", "twin")},
+                            "communicator": view["name"], "ranks": g, "container": c, "inserts": stats["inserts"],
+                            "inserts_into_a_slot_being_flushed": stats["nested_same_slot"],
+                            "real_counts": real_count, "rank0_first_labels": " ".join(per_rank[0][0][c][:40])})
+    if nested_total > 0:
+        res.distinct.add((case["script_seed"], case["nodes"], case["ppn"], case["routing"], case["buffer_kb"], case["policy"], case["sim_seed"],
+                          case.get("subcomm", 0), case.get("split", 0), case.get("twin", 0)))
 
 
 def search_around(res, binary, checker, runner, model_ok, budget=8, force=None):
@@ -417,8 +580,8 @@ def search_around(res, binary, checker, runner, model_ok, budget=8, force=None):
     with Scratch() as sc:
         out = C.pmap(lambda iv: (iv[1],) + runner(binary, sc, iv[1], 900 + iv[0]), list(enumerate(variants)))
     probe = C.Result()
-    for case, sr, universe, contrib in out:
-        checker(probe, case, sr, universe, contrib, model_ok)
+    for case, sr, universe, ops in out:
+        checker(probe, case, sr, universe, ops, model_ok)
     res.notes.append(f"search around {len(todo)} disagreeing case(s): {len(variants)} variants run, {len(probe.oracle_failures)} failed the oracle")
     res.evaluations += probe.evaluations
     res.oracle_failures += probe.oracle_failures[:3]
@@ -441,8 +604,8 @@ def run(tier, seed, model_ok=True):
             i, case = ic
             return (case,) + run_case(binary, sc, case, i)
         results = C.pmap(do, list(enumerate(cases)))
-    for case, sr, universe, contrib in results:
-        check_cset(res, case, sr, universe, contrib, model_ok)
+    for case, sr, universe, ops in results:
+        check_cset(res, case, sr, universe, ops, model_ok)
     search_around(res, binary, check_cset, lambda b, sc, case, i: run_case(b, sc, case, i), model_ok)
     return res
 
@@ -459,8 +622,12 @@ def replay(data):
         return False
     res = C.Result()
     with Scratch() as sc:
-        sr, universe, contrib = run_case(binary, sc, case, 0)
-    check_cset(res, case, sr, universe, contrib, os.path.exists(C.model_bin()))
+        sr, universe, ops = run_case(binary, sc, case, 0)
+    try:
+        model_ok = os.path.exists(C.model_bin("cache"))
+    except Exception:
+        model_ok = False
+    check_cset(res, case, sr, universe, ops, model_ok)
     for f in res.oracle_failures:
         print("oracle:", f["what"], f["signature"], f["case"].get("detail"))
     for f in res.corr_failures:
